@@ -321,7 +321,7 @@ Local Open Scope string_scope.
 Definition op_method (o : op) : string :=
   match o with
   | SetInt _ _ | SetSlice _ _ => "__setitem__" | DelInt _ | DelSlice _ => "__delitem__"
-  | Append _ => "append" | Extend _ => "extend" | Iadd _ => "__iadd__" | Imul _ => "__imul__"
+  | Append _ => "append" | Extend _ => "extend" | Iadd _ => "__iadd__" | Imul _ | ImulQ _ _ => "__imul__"
   | Insert _ _ => "insert" | Pop _ => "pop" | Remove _ => "remove" | Reverse => "reverse"
   | Sort _ _ => "sort" | Clear => "clear"
   end.
